@@ -204,30 +204,31 @@ cache dicts, then awaits the persistence layer.  `SOp` splits them accordingly; 
 suspended at their persistence call (the query executing at any instant between start and resumption) while removals,
 recordings, sampler / janitor iterations and other queries run to completion, with a monotone clock and removals naming
 a port: every memoised answer still equals what the store answers.  It holds for the code as it is because the query
-writes into the dict it bound BEFORE the await — a dict popped meanwhile is only an orphan (`cfg.lateDict = false`).
-A removal split from its cache invalidation (`delExec`) is covered only with `cfg.popAfter` (see
-`overlapped_remove_race`). -/
+writes into the dict it bound BEFORE the await — a dict popped meanwhile is only an orphan (`cfg.lateDict = false`) —
+and because a removal drops the dicts again AFTER its awaited persistence call (`cfg.popAfter = true`, repo commit
+d4ebdd9; `overlapped_remove_race` is the counter-example for the code before it), so removals too may be split
+(`delBegin` … `delExec`) with anything in between. -/
 theorem split_cache_always_consistent (cfg : Cfg) (hr : cfg.repaired = true) (hl : cfg.lateDict = false)
-    (h0 : 0 ≤ cfg.minAge) (store0 : List Sample) (ports0 : List Port) (T0 : Int) (ops : List SOp)
-    (hm : SMonotone cfg T0 ops) :
+    (hpa : cfg.popAfter = true) (h0 : 0 ≤ cfg.minAge) (store0 : List Sample) (ports0 : List Port) (T0 : Int)
+    (ops : List SOp) (hm : SMonotone T0 ops) :
     ∃ T, CacheOK (sRun cfg ⟨⟨store0, [], ports0⟩, []⟩ ops).1.st T := by
   have hinv : SInv cfg ⟨⟨store0, [], ports0⟩, []⟩ T0 := by
     constructor
     · intro pid t v h; cases h
     · intro fl h; cases h
-  obtain ⟨T, h⟩ := sRun_inv cfg hr hl h0 ops _ T0 hinv hm
+  obtain ⟨T, h⟩ := sRun_inv cfg hr hl hpa h0 ops _ T0 hinv hm
   exact ⟨T, h.1⟩
 
 /-- Hence **every later by-timestamp answer is the specified one for the then-current store**, whatever overlapped
 before. -/
 theorem later_answers_follow_spec (cfg : Cfg) (hr : cfg.repaired = true) (hl : cfg.lateDict = false)
-    (h0 : 0 ≤ cfg.minAge) (store0 : List Sample) (ports0 : List Port) (T0 : Int) (ops : List SOp)
-    (hm : SMonotone cfg T0 ops) (pid : Nat) (now : Int) (tss : List Int) :
+    (hpa : cfg.popAfter = true) (h0 : 0 ≤ cfg.minAge) (store0 : List Sample) (ports0 : List Port) (T0 : Int)
+    (ops : List SOp) (hm : SMonotone T0 ops) (pid : Nat) (now : Int) (tss : List Int) :
     let s := (sRun cfg ⟨⟨store0, [], ports0⟩, []⟩ ops).1
     (sStep cfg s (.atomic (.byTs pid now tss))).2 =
       some (.byTs (tss.map (fun t => ((newestLE s.st.store pid t).map (adapt (ptypeOf s.st pid))).map (fun v => (t, v))))) := by
   intro s
-  obtain ⟨T, hok⟩ := split_cache_always_consistent cfg hr hl h0 store0 ports0 T0 ops hm
+  obtain ⟨T, hok⟩ := split_cache_always_consistent cfg hr hl hpa h0 store0 ports0 T0 ops hm
   show some (Ans.byTs (hByTs cfg s.st pid (ptypeOf s.st pid) now tss).2.1) = _
   rw [by_timestamp_spec cfg hr s.st T hok pid now tss]
 
@@ -245,23 +246,24 @@ theorem overlapped_query_answer (cfg : Cfg) (hr : cfg.repaired = true) (st0 st :
 /-- If the dict were looked up again when the answer is stored (`lateDict`, the seeded change C18-r2-1) a removal that
 completes while the query waits leaves the removed sample in the cache: the store is empty, yet the next query answers it. -/
 theorem late_dict_stale_after_overlapped_remove :
-    ∃ (ops : List SOp), SMonotone { lateDict := true, minAge := 1000 } 0 ops ∧
+    ∃ (ops : List SOp), SMonotone 0 ops ∧
       (sRun { lateDict := true, minAge := 1000 } ⟨⟨[⟨1, 60, 8⟩], [], []⟩, []⟩ ops).1.st.store = [] ∧
       (sRun { lateDict := true, minAge := 1000 } ⟨⟨[⟨1, 60, 8⟩], [], []⟩, []⟩ ops).2.getLast? =
         some (some (.byTs [some (100, .f 8)])) :=
   ⟨[.getBegin 0 1 5000 [100], .getFetch 0, .atomic (.remove [1] none none), .getEnd 0, .atomic (.byTs 1 5000 [100])],
    by decide, by decide, by decide⟩
 
-/-- The code as it is invalidates the cache only BEFORE the removal's persistence call: a by-timestamp query running
-between the two halves memoises a sample the removal then deletes (known finding C18-remove-overlap-stale-cache; needs a
-driver that really suspends).  With the cache dropped again afterwards (`popAfter`) the same history is harmless — and
-`split_cache_always_consistent` covers it. -/
+/-- Before repo commit d4ebdd9 (`popAfter = false`: the cache invalidated only BEFORE the removal's awaited persistence
+call) a by-timestamp query running between the two halves memoised a sample the removal then deleted: the store is
+empty, yet the next query answers it (fixed finding C18-remove-overlap-stale-cache).  With the second invalidation
+(`popAfter = true`, the model proper) the same history answers null — as `split_cache_always_consistent` guarantees. -/
 theorem overlapped_remove_race :
     let ops : List SOp := [.delBegin [1], .atomic (.byTs 1 5000 [100]), .delExec [1] none none, .atomic (.byTs 1 5000 [100])]
-    (sRun { minAge := 1000 } ⟨⟨[⟨1, 60, 8⟩], [], []⟩, []⟩ ops).1.st.store = [] ∧
-    (sRun { minAge := 1000 } ⟨⟨[⟨1, 60, 8⟩], [], []⟩, []⟩ ops).2.getLast? = some (some (.byTs [some (100, .f 8)])) ∧
-    SMonotone { minAge := 1000, popAfter := true } 0 ops ∧
-    (sRun { minAge := 1000, popAfter := true } ⟨⟨[⟨1, 60, 8⟩], [], []⟩, []⟩ ops).2.getLast? = some (some (.byTs [none])) := by
+    SMonotone 0 ops ∧
+    (sRun { minAge := 1000, popAfter := false } ⟨⟨[⟨1, 60, 8⟩], [], []⟩, []⟩ ops).1.st.store = [] ∧
+    (sRun { minAge := 1000, popAfter := false } ⟨⟨[⟨1, 60, 8⟩], [], []⟩, []⟩ ops).2.getLast? =
+      some (some (.byTs [some (100, .f 8)])) ∧
+    (sRun { minAge := 1000 } ⟨⟨[⟨1, 60, 8⟩], [], []⟩, []⟩ ops).2.getLast? = some (some (.byTs [none])) := by
   decide
 
 /-! ### Deletion -/
@@ -353,7 +355,7 @@ example :
 
 -- an overlapped history of the code as it is: the query is suspended, the removal completes, the query resumes with the
 -- old sample (it was ordered first), the next query sees the removal
-example : SMonotone { minAge := 1000 } 0
+example : SMonotone 0
     [.getBegin 0 1 5000 [100, 50], .getFetch 0, .atomic (.remove [1] none none), .atomic (.poll 1 5000 none), .getEnd 0,
      .atomic (.byTs 1 5000 [100])] ∧
     (sRun { minAge := 1000 } ⟨⟨[⟨1, 60, 8⟩], [], []⟩, []⟩
